@@ -38,4 +38,8 @@ OUTSIDE = [
 
 
 def run(ctx):
+    # Engine M complement (props/mextra.py): at loop level exactly the searched initialised ticks are crossed, each once, in price order (Floyd verification shared with C03)
+    from props import mextra
+    ctx.mir()
+    ctx.parallel(mextra.c10_tasks(), max_procs=8)
     ctx.run_kani(['c10.rs'])
